@@ -248,6 +248,25 @@ def numeric_cases(tier):
 
 
 # ---------------------------------------------------------------- basic invalid texts (enumerated, pinned one by one)
+def basic_valid():
+    """Systematic valid exemplars: every operand form, bare / signed / with a postfix %, in every argument position
+    (first, middle, last, next to an empty argument, inside parentheses).  Only totality, round trip and operator
+    provenance are asserted on them (src 'basic-valid')."""
+    O = ['1', 'A1', '"a"', 'nm', 'PI()', '(1)', 'TRUE', '#N/A', '{1}', '2.5', 'B2:C3', 'SUM(1,2)']
+    out = []
+    for o in O:
+        for form in ('%s', '%s%%', '-%s', '-%s%%', '(%s)%%', '%s%%%%', '1+%s', '%s*2', '1<=%s%%'):
+            x = form % o
+            for ctx in ('=%s', '=SUM(%s,2)', '=SUM(1,%s)', '=SUM(1,%s,3)', '=IF(%s,%s,%s)', '=SUM(%s,,2)', '=SUM(,%s)', '=SUM(%s,)',
+                        '=(%s)', '=SUM((%s),2)', '=IF(A1>1,%s,%s)', '=SUM(IF(1,%s),2)'):
+                out.append(ctx.replace('%s', x))
+    seen = set()
+    for s_ in out:
+        if s_ not in seen:
+            seen.add(s_)
+            yield {'s': s_, 'src': 'basic-valid'}
+
+
 def basic_invalid():
     """Minimal exemplars of every class the property names.  They are reported under their own
     signature ('basic|<text>') so that no globbed known finding can ever hide one of them."""
@@ -261,6 +280,14 @@ def basic_invalid():
                 out.append('=%s%s' % (b, o))
             out.append('=(%s%s)' % (o, b))
             out.append('=SUM(%s%s)' % (o, b))
+            # a dangling operator directly before / after an argument separator or inside a later argument
+            out.append('=SUM(%s%s,2)' % (o, b))
+            out.append('=IF(1,%s%s,3)' % (o, b))
+            out.append('=SUM(1,%s%s)' % (o, b))
+            if b not in '+-':
+                out.append('=SUM(1,%s%s)' % (b, o))
+                out.append('=IF(%s%s,2,3)' % (b, o))
+            out.append('=SUM((%s%s),2)' % (o, b))
     for o in ('1', 'A1'):
         for b in B[:-1]:
             for b2 in B:
